@@ -117,7 +117,7 @@ def statements_in(rel):
 
 # files under gen/ that are regenerated from the repository source on every run and belong to the development
 # (Consts.v: constants and templates; Src*.v: Gallina definitions translated from the source text, harness/srcgen)
-GEN_FILES = ('Consts.v', 'SrcCal.v')
+GEN_FILES = ('Consts.v', 'SrcCal.v', 'SrcSched.v')
 
 
 def regenerate_consts():
@@ -126,16 +126,17 @@ def regenerate_consts():
     from harness import consts
     text, problems = consts.generate(repo_path())
     write_if_changed(os.path.join(GEN, 'Consts.v'), text)
-    from harness.srcgen import cal as srccal
-    try:
-        text, probs = srccal.emit(repo_path())
-    except Exception as e:   # fail closed
-        text, probs = None, ['translator crashed: %r' % (e,)]
-    if text is not None and not probs:
-        write_if_changed(os.path.join(GEN, 'SrcCal.v'), text)
-    elif not os.path.exists(os.path.join(GEN, 'SrcCal.v')) and text is not None:
-        write_if_changed(os.path.join(GEN, 'SrcCal.v'), text)
-    problems += ['srccal: %s' % p for p in probs]
+    from harness.srcgen import cal as srccal, sched as srcsched
+    for part, mod, fname in (('srccal', srccal, 'SrcCal.v'), ('srcsched', srcsched, 'SrcSched.v')):
+        try:
+            text, probs = mod.emit(repo_path())
+        except Exception as e:   # fail closed
+            text, probs = None, ['translator crashed: %r' % (e,)]
+        # a source that cannot be translated leaves the previous file in place (the problem is reported and the proof
+        # counts as broken); the search for a failing input needs a development that builds
+        if text is not None and (not probs or not os.path.exists(os.path.join(GEN, fname))):
+            write_if_changed(os.path.join(GEN, fname), text)
+        problems += ['%s: %s' % (part, p) for p in probs]
     return problems
 
 
